@@ -302,19 +302,19 @@ func propC12(c model.Case) hh.Verdict {
 			want := map[string]int{}
 			for _, d := range spec.Detailed {
 				if d.Node.Kind == model.KPre {
-					want[d.Path+"|"+d.Code]++
+					want[d.Path]++ // which code such an issue carries is not part of the statement
 				}
 			}
 			got := map[string]int{}
 			for _, is := range all {
 				if is.Err != nil && strings.Contains(is.Err.Error(), "preprocess") {
-					got[is.Path+"|"+is.Code]++
+					got[is.Path]++
 				}
 			}
 			for k, n := range want {
 				if got[k] != n {
 					preFail = true
-					return hh.Fail("the input implies %d Preprocess issue(s) %q (type mismatch: coerce, function error: empty code) but %d were reported; all issues: %s", n, k, got[k], fmtIss(res.Norm(false)))
+					return hh.Fail("the input implies %d Preprocess issue(s) (type mismatch or function error) at %q but %d were reported there; all issues: %s", n, k, got[k], fmtIss(res.Norm(false)))
 				}
 				preFail = true
 			}
